@@ -2,6 +2,7 @@ package wl
 
 import (
 	"bytes"
+	crand "crypto/rand"
 	"encoding/hex"
 	"encoding/json"
 	"fmt"
@@ -86,6 +87,16 @@ func explainedExponentP(draws []rngDraw, g int64, pub []byte, p *big.Int) (bool,
 }
 
 func c19(c *wk.Ctx) {
+	// the process-wide source, before the harness interposes itself: whatever package of the library has been
+	// initialised by now must have left crypto/rand.Reader alone (a wrapper installed by an init() could answer
+	// from anywhere when the OS source is slow — a path no run takes)
+	if tee == nil {
+		c.Count("process_source.checked", 1)
+		if tn := fmt.Sprintf("%T", crand.Reader); tn != "*rand.reader" && tn != "*rand.Reader" && !strings.HasPrefix(tn, "*rand.") && !strings.HasPrefix(tn, "rand.") {
+			c.Viol("C19", 0, "process-source-replaced", fmt.Sprintf("crypto/rand.Reader is a %s when the program starts: the library replaced the process-wide random source during initialisation", tn), tn)
+		}
+		c.Note("process_source_type", fmt.Sprintf("%T", crand.Reader))
+	}
 	t := installTee()
 	idx := 0
 	n := c.Pick(4, 30)
